@@ -5,6 +5,7 @@ package vsimharness
 import (
 	"errors"
 	"fmt"
+	"strings"
 	"sync"
 	"time"
 
@@ -21,7 +22,7 @@ func init() {
 	register(&Workload{Prop: "C15", Variant: "differential", Horizon: 30 * time.Minute, MaxSteps: 1500000, MaxG: 8192, Spin: 40000, PCTLen: 8000, Body: c15Differential})
 }
 
-var c15Ops = []string{"Tell", "Ask/Reply", "Kill(immediate)", "Kill(poison)", "Watch+death", "Watch+Unwatch+death", "Ping", "PipeTo(success)", "PipeTo(error)", "Scheduler.Once(receiver)", "ActorSystem.Tell", "ActorSystem.Kill", "Reply-to-remote-asker", "Watch(two same-path watchers)+death", "Watch(two same-path watchers)+Unwatch(one)+death"}
+var c15Ops = []string{"Tell", "Ask/Reply", "Kill(immediate)", "Kill(poison)", "Watch+death", "Watch+Unwatch+death", "Ping", "PipeTo(success)", "PipeTo(error)", "Scheduler.Once(receiver)", "ActorSystem.Tell", "ActorSystem.Kill", "Reply-to-remote-asker", "Watch(two same-path watchers)+death", "Watch(two same-path watchers)+Unwatch(one)+death", "PipeTo(plain error result, forwarder local/remote)", "Ask/Reply(library error reply)"}
 
 func c15Differential(r *R) {
 	op := r.Index % len(c15Ops)
@@ -73,6 +74,14 @@ func c15Differential(r *R) {
 					obs(where, fmt.Sprintf("target-received seq=%d intact=%v", m.Seq, string(padFor(m.Seq, len(m.Pad))) == string(m.Pad)))
 					if m.Want == 1 {
 						ctx.Reply(&RRep{Seq: m.Seq, By: "target"})
+					}
+					if m.Want == 2 {
+						// an error that is not one of the library's registered errors (only ever replied to a local asker:
+						// an arbitrary error value is a user payload and needs a user codec to cross the wire itself)
+						ctx.Reply(errors.New("target says no"))
+					}
+					if m.Want == 3 {
+						ctx.Reply(vivid.ErrorIllegalArgument.WithMessage("target says no"))
 					}
 				case *vivid.OnKill:
 					obs(where, fmt.Sprintf("target-saw-OnKill poison=%v killer-set=%v", m.Poison, m.Killer != nil))
@@ -195,6 +204,19 @@ func c15Differential(r *R) {
 					ctx.PipeTo(tref, newRMsg("op", 7, 50, 1), vivid.ActorRefs{fref}, 5*time.Second)
 				case 8:
 					ctx.PipeTo(tref, newRMsg("op", 8, 50, 0), vivid.ActorRefs{fref}, 300*time.Millisecond) // the target never replies: time-out
+				case 15:
+					// the asked actor is local in both runs; what differs is where the forwarder lives: the failed result
+					// (a plain error) must reach a remote forwarder as a failure, as it reaches a local one
+					lref, _ := ctx.System().CreateRef(a.Addr, "/t-local")
+					ctx.PipeTo(lref, newRMsg("op", 15, 50, 2), vivid.ActorRefs{fref}, 5*time.Second)
+				case 16:
+					f := ctx.Ask(tref, newRMsg("op", 16, 100, 3), 5*time.Second)
+					vsimrt.Go("c15.wait", func() {
+						vsimrt.SetTag(1)
+						m, err := f.Result()
+						vsimrt.Yield()
+						obs(where, fmt.Sprintf("ask-completed message-nil=%v %s", m == nil, errClass(err)))
+					})
 				case 9:
 					_ = ctx.Scheduler().Once(tref, 50*time.Millisecond, newRMsg("op", 9, 30, 0))
 				case 10:
@@ -258,6 +280,18 @@ func c15Differential(r *R) {
 		}
 	}
 	mu.Lock()
+	if op == 15 {
+		// both runs use the local target: only what the forwarders saw is compared
+		for _, k := range []string{"local", "remote"} {
+			var f []string
+			for _, o := range outcome[k] {
+				if strings.HasPrefix(o, "forwarder-got") {
+					f = append(f, o)
+				}
+			}
+			outcome[k] = f
+		}
+	}
 	loc, rem := sortedCopy(outcome["local"]), sortedCopy(outcome["remote"])
 	mu.Unlock() // never hold a harness lock while calling into the system (Stop below publishes events that call obs)
 	if len(loc) == 0 && op != 5 {
